@@ -157,7 +157,7 @@ fn c09_sync() {
 }
 
 // @harness c09_follow_up
-// @props C09 C07 C03 C17:thorough
+// @props C09 C07 C03:thorough C17:thorough
 // @tier quick
 // @variant lists2
 // @timeout 1200
@@ -227,7 +227,7 @@ fn c09_follow_up() {
 }
 
 // @harness c09_delay_timestamp
-// @props C09 C03 C17:thorough
+// @props C09 C03:thorough C17:thorough
 // @tier quick
 // @variant lists2
 // @timeout 1200
